@@ -84,6 +84,8 @@ def calibration_cases(ctx):
             if not torch.isfinite(o.float()).all():
                 zero_only = all(kk in ("zeros", "tiny") for kk in kinds)
                 sig = "C16:nonfinite-after-calibration:" + ("zero-batches-only" if zero_only else "other")
+                if "float8" in wq and "float8" in act and dt == torch.float16:
+                    sig = "C16:nonfinite-after-calibration:float8xfloat8-in-float16"
                 ctx.spec_failures.append((sig, {"activations": act, "weights": wq, "dtype": str(dt), "calibration_batches": kinds, "inference_batch": k, "scales": scales}))
                 break
 
@@ -204,6 +206,13 @@ def run(ctx):
     zero_layer_cases(ctx)
     # S4: witnesses of the listed findings, and of the repaired defects (which must now pass)
     for sig, f in known_signatures("C16").items():
+        if f["witness"].get("directed") == "f8xf8-f16-overflow":
+            import witnesses07
+            with torch.no_grad():
+                hit = witnesses07.case_f8xf8_f16_overflow()
+            if hit and sig not in ctx.known_reproduced:
+                ctx.known_reproduced.append(sig)
+            continue
         sigs = replay_witness(ctx, f["witness"])
         if sig in sigs:
             if sig not in ctx.known_reproduced:
